@@ -264,6 +264,21 @@ class Interp:
         if e is None:
             return 'reraise'
         f = e.func if isinstance(e, ast.Call) else e
+        # `raise factory(...)`: the class of what the factory returns
+        if isinstance(e, ast.Call) and isinstance(f, (ast.Name,
+                                                      ast.Attribute)):
+            d = self.repo.resolve(self.mod, f) if not (
+                isinstance(f, ast.Name) and f.id in env) else None
+            tgt = self.repo.lookup(d) if d else None
+            if isinstance(tgt, model.FuncInfo) and self.follow:
+                try:
+                    v = self.ev(e, env)
+                except Unsupported:
+                    v = None
+                if isinstance(v, Obj) and v.attrs.get('__class__'):
+                    return v.attrs['__class__'].node.name
+                if isinstance(v, tuple) and v and v[0] == 'global':
+                    return v[1].rsplit('.', 1)[-1]
         if isinstance(f, ast.Name) and f.id in env:
             v = env[f.id]
             if isinstance(v, Sym):
@@ -421,6 +436,9 @@ class Interp:
         if isinstance(e, (ast.GeneratorExp, ast.ListComp, ast.SetComp)):
             out = []
             self.comp(e, 0, dict(env), out)
+            if not isinstance(e, ast.GeneratorExp):
+                # a list / set display is built at once
+                out = [self.force(x) for x in out]
             return out
         if isinstance(e, ast.DictComp):
             out = []
@@ -520,6 +538,41 @@ class Interp:
         """Call the abstract value f."""
         if site is None:
             site = self.shared.get('call')
+        if isinstance(f, tuple) and len(f) == 3 and f[0] == 'ntclass':
+            vals = dict(zip(f[2], args))
+            vals.update(kwargs)
+            if set(vals) != set(f[2]):
+                raise _Raise('TypeError')
+            o = Obj(f[1], **vals)
+            o.attrs['__items__'] = [vals[k] for k in f[2]]
+            return o
+        if isinstance(f, tuple) and len(f) == 2 and f[0] == 'attrgetter':
+            o = args[0]
+            vals = []
+            for nm in f[1]:
+                cur = o
+                for part in nm.split('.'):
+                    if isinstance(cur, Obj) and part in cur.attrs:
+                        cur = cur.attrs[part]
+                    else:
+                        raise Unsupported('attrgetter %s' % nm)
+                vals.append(cur)
+            return vals[0] if len(vals) == 1 else tuple(vals)
+        if isinstance(f, tuple) and len(f) == 2 and f[0] == 'itemgetter':
+            try:
+                return args[0][f[1]]
+            except Exception as ex:
+                raise _Raise(type(ex).__name__)
+        if f == ('builtin', 'map') and len(args) >= 2:
+            seqs = [list(self.iterate(a)) for a in args[1:]]
+            return [self.invoke(args[0], list(t), {}, None, site)
+                    for t in zip(*seqs)]
+        if f == ('builtin', 'filter') and len(args) == 2:
+            items = list(self.iterate(args[1]))
+            if args[0] is None:
+                return [x for x in items if self.truth(x)]
+            return [x for x in items if self.truth(
+                self.invoke(args[0], [x], {}, None, site))]
         # functools.partial objects
         if f == ('global', 'functools.partial') and args:
             return ('partial', args[0], list(args[1:]), dict(kwargs))
@@ -529,7 +582,9 @@ class Interp:
             return self.invoke(f[1], list(f[2]) + list(args), kw, None,
                                site)
         if isinstance(f, tuple) and len(f) == 2 and f[0] == 'global' and \
-                f[1].startswith('operator.') and not kwargs and \
+                f[1].startswith('operator.') and f[1] not in (
+                    'operator.attrgetter', 'operator.itemgetter',
+                    'operator.methodcaller') and not kwargs and \
                 not any(isinstance(a, (Sym, Obj, Closure)) for a in args):
             import operator as _op
             fn = getattr(_op, f[1][9:], None)
@@ -660,8 +715,30 @@ class Interp:
             r = self.oracle(f[1], args, kwargs)
             if r is not None:
                 self.trace.append((f[1], args))
+                if isinstance(r[0], _Raise):
+                    raise r[0]
                 return r[0]
+            lib = self.library(f[1], args, kwargs, site)
+            if lib is not NotImplemented:
+                return lib
             tgt = self.repo.lookup(f[1])
+            if isinstance(tgt, model.ClassInfo) and self.follow:
+                # instantiate a class of the repository
+                inst = Obj(tgt.node.name, __class__=tgt)
+                init = self.repo.find_method(tgt, '__init__')
+                if tgt.module.name.endswith('.exceptions') or any(
+                        self.repo.is_subclass(tgt, b) for b in (
+                            'builtins.Exception',
+                            'builtins.BaseException')):
+                    # an exception object: only its class matters
+                    inst.attrs['args'] = tuple(args)
+                    return inst
+                if init is not None:
+                    self.invoke(('bound', init, inst), args, kwargs, None,
+                                site)
+                elif args or kwargs:
+                    raise Unsupported('constructor arguments')
+                return inst
             if isinstance(tgt, model.FuncInfo) and self.follow:
                 self.shared['call'] = site
                 r = self.oracle(tgt.key, args, kwargs)
@@ -691,8 +768,78 @@ class Interp:
             r = self.oracle(f.name, args, kwargs)
             if r is not None:
                 self.trace.append((f.name, args))
+                if isinstance(r[0], _Raise):
+                    raise r[0]
                 return r[0]
+        if isinstance(f, Obj) and '__call__' in f.attrs:
+            return self.invoke(f.attrs['__call__'], args, kwargs, None,
+                               site)
+        if isinstance(f, Obj) and f.attrs.get('__class__') is not None:
+            m = self.repo.find_method(f.attrs['__class__'], '__call__')
+            if m is not None:
+                return self.invoke(('bound', m, f), args, kwargs, None,
+                                   site)
         raise Unsupported('call of %r' % (f,))
+
+    def library(self, name, args, kwargs, site):
+        """Models of the library combinators that show up when loops are
+        respelled: every one is applied to concrete skeleton containers
+        (whose elements may be opaque) and uninterpreted callables are
+        invoked through the interpreter."""
+        call = lambda fn, *a: self.invoke(fn, list(a), {}, None, site)
+        lst = lambda v: list(self.iterate(v))
+        if name == 'itertools.chain':
+            out = []
+            for a in args:
+                out.extend(lst(a))
+            return out
+        if name == 'itertools.chain.from_iterable' and len(args) == 1:
+            out = []
+            for a in lst(args[0]):
+                out.extend(lst(a))
+            return out
+        if name == 'itertools.starmap' and len(args) == 2:
+            return [call(args[0], *lst(t)) for t in lst(args[1])]
+        if name == 'itertools.repeat' and len(args) == 2 and isinstance(
+                args[1], int):
+            return [args[0]] * args[1]
+        if name == 'itertools.count':
+            return list(range(args[0] if args else 0,
+                              (args[0] if args else 0) + 64))
+        if name == 'itertools.product' and not kwargs:
+            import itertools
+            return [tuple(t) for t in itertools.product(
+                *[lst(a) for a in args])]
+        if name == 'itertools.islice' and len(args) >= 2 and all(
+                isinstance(a, (int, type(None))) for a in args[1:]):
+            import itertools
+            return list(itertools.islice(lst(args[0]), *args[1:]))
+        if name == 'operator.attrgetter' and args and all(
+                isinstance(a, str) for a in args):
+            return ('attrgetter', tuple(args))
+        if name == 'operator.itemgetter' and len(args) == 1:
+            return ('itemgetter', args[0])
+        if name == 'functools.reduce' and len(args) in (2, 3):
+            items = lst(args[1])
+            if len(args) == 3:
+                acc = args[2]
+            elif items:
+                acc, items = items[0], items[1:]
+            else:
+                raise _Raise('TypeError')
+            for x in items:
+                acc = call(args[0], acc, x)
+            return acc
+        if name == 'collections.namedtuple' and len(args) >= 2:
+            fields = args[1]
+            if isinstance(fields, str):
+                fields = fields.replace(',', ' ').split()
+            fields = [x for x in lst(fields)]
+            if all(isinstance(x, str) for x in fields):
+                return ('ntclass', args[0], tuple(fields))
+        if name == 'collections.deque' and len(args) <= 1:
+            return lst(args[0]) if args else []
+        return NotImplemented
 
     def apply(self, fnode, cenv, args, kwargs):
         amap = dict(enumerate(args))
